@@ -243,6 +243,10 @@ type FnSpec struct {
 	Hoist     bool
 	HoistVars []string
 	Setters   bool // field assignments go through the `set_<field>` functions of structures that have them
+	// MapOrder: Lean function (List of keys → List of keys) giving the order in which `for k := range m` visits the
+	// keys of a Go map that the configuration represents as the list of its keys (Go leaves the order unspecified;
+	// theorems quantify over the function and assume only that it permutes the keys)
+	MapOrder string
 	UseStructs   []string // opt-in struct types (Go names) this function works on
 	// Inner: the function only returns a closure (possibly wrapped in a conversion such as http.HandlerFunc(...));
 	// what is translated is the closure, with the parameters of the outer function in front of its own
@@ -1064,6 +1068,11 @@ func (t *tr) expr(e ast.Expr) (string, T) {
 		t.fail(x, "type assertion %s", t.p.text(x))
 	case *ast.CompositeLit:
 		if tv, ok := t.p.info.Types[x]; ok {
+			if _, isMap := tv.Type.Underlying().(*types.Map); isMap && len(x.Elts) == 0 {
+				if mt := t.g.goT(tv.Type); mt.Kind == "strlist" || strings.HasPrefix(mt.Lean, "List ") {
+					return "[]", mt
+				}
+			}
 			if _, isSlice := tv.Type.Underlying().(*types.Slice); isSlice {
 				var els []string
 				for _, el := range x.Elts {
@@ -1847,6 +1856,14 @@ func (t *tr) switchStmt(x *ast.SwitchStmt) {
 
 func (t *tr) rangeStmt(x *ast.RangeStmt) {
 	coll, ct := t.expr(x.X)
+	if _, isMap := t.typeOf(x.X).Underlying().(*types.Map); isMap {
+		// a Go map represented as the list of its keys: `for k := range m` visits them in an unspecified order
+		if t.spec.MapOrder == "" || x.Value != nil || x.Key == nil {
+			t.fail(x, "range over a map")
+		}
+		coll = "(" + t.spec.MapOrder + " " + coll + ")"
+		x = &ast.RangeStmt{For: x.For, Key: nil, Value: x.Key, Tok: x.Tok, X: x.X, Body: x.Body}
+	}
 	elemT := tBad
 	switch {
 	case ct.Kind == "strlist":
